@@ -1,6 +1,8 @@
 package keeper
 
 import (
+	"sort"
+
 	errorsmod "cosmossdk.io/errors"
 	sdkmath "cosmossdk.io/math"
 	assetstype "github.com/ExocoreNetwork/exocore/x/assets/types"
@@ -98,7 +100,14 @@ func (k Keeper) GetAssetsDecimal(ctx sdk.Context, assets map[string]interface{})
 	}
 	store := prefix.NewStore(ctx.KVStore(k.storeKey), assetstype.KeyPrefixReStakingAssetInfo)
 	decimals = make(map[string]uint32, 0)
+	// visit the assets in a fixed order: the store reads made before an unknown asset ends the loop are
+	// charged to the transaction's gas meter, so their number must not depend on the map order
+	assetIDs := make([]string, 0, len(assets))
 	for assetID := range assets {
+		assetIDs = append(assetIDs, assetID)
+	}
+	sort.Strings(assetIDs)
+	for _, assetID := range assetIDs {
 		value := store.Get([]byte(assetID))
 		if value == nil {
 			return nil, assetstype.ErrNoClientChainAssetKey
